@@ -102,7 +102,8 @@ Record params := {
   prm_leak_parent : N;       (* include.c:356 oldp.standards >= 9 *)
   prm_leak_child : N;        (* include.c:356 p->standards >= 9 *)
   prm_alias_bounded : bool;  (* _GD_ResolveAlias has a recursion bound (after the proposed fix) *)
-  prm_ns_pop : bool          (* include.c:222: the current namespace is pushed/popped around EVERY inclusion *)
+  prm_ns_pop : bool;         (* include.c:222: the current namespace is pushed/popped around EVERY inclusion *)
+  prm_nullns : bool          (* include.c:118: a parent root namespace "" is treated like NULL (proposed fix C09-4) *)
 }.
 
 (* the values documented in dirfile-format.5 *)
@@ -112,7 +113,7 @@ Definition spec_params : params := {|
   g_alias := 9; g_encoding := 6; g_endian := 5; g_frameoffset := 1; g_hidden := 9;
   g_include := 3; g_namespace := 10; g_protect := 6; g_reference := 6; g_version := 5;
   g_slash := 5; g_barth := 7; g_nsname := 10; g_nsaffix := 10; g_fo_base0 := 9;
-  prm_leak_parent := 9; prm_leak_child := 9; prm_alias_bounded := true; prm_ns_pop := true |}.
+  prm_leak_parent := 9; prm_leak_child := 9; prm_alias_bounded := true; prm_ns_pop := true; prm_nullns := true |}.
 
 (* ----------------------------------------------------------------- data *)
 Record sett := { t_enc : N; t_end : bool; t_off : Z; t_prot : N }.
@@ -407,7 +408,9 @@ Section Impl.
           if invalid_field whole 0 (p_std p) (p_ped p) VF_NS then Err
           else Ok (match f_ns f with
                    | None => Some nsv
-                   | Some fns => Some (match nsv with [] => fns | _ => fns ++ cDOT :: nsv end)
+                   | Some fns =>
+                       if prm_nullns P && isnil fns then Some nsv
+                       else Some (match nsv with [] => fns | _ => fns ++ cDOT :: nsv end)
                    end, pxin', true)
       | None => Ok (f_ns f, pxin', false)
       end
